@@ -38,7 +38,8 @@ TRUSTED = ["modelled, not verified: NumPy/SciPy array semantics used by the Pyth
            "lemma imported) and euler_spec is proved equal to the plane counts; for EVERY image the equality is proved by "
            "induction over the pixels in raster order from ONE unproved premise, the existence half of the digital Jordan "
            "lemma at the raster-last pixel (C15_euler_all_images_partial; the separation half is C05's "
-           "sep_not_connected, imported) - Partial for that reason only; Finite sweeps cover all small images; the executable flood-fill definition euler_spec is evaluated on every generated case too",
+           "sep_not_connected, imported) - Partial for that reason only; the inequality 4 (components - holes) <= 4 W is "
+           "proved for every image without that premise (C15_euler_lower_bound); Finite sweeps cover all small images; the executable flood-fill definition euler_spec is evaluated on every generated case too",
            "the spanning-forest certificate for all_connected_components is computed by the Python harness but only "
            "verified by the extracted Spec.LabelGraph.acc_cert_ok (soundness proved), so it is not trusted"]
 ASSUMPTIONS = ["labels are non-negative integers; label images are rectangular and non-empty",
